@@ -614,11 +614,13 @@ theorem vdimsSet_inv (nvdim : Nat) (v : Option (List String))
 
 /-! ## the field -/
 
-theorem fieldLoad_fieldSave (f : TFld) (hf : f.Inv) (hu : f.unit ≠ some "None") :
-    fieldLoad (fieldSave f) = .ok (loaded f) := by
+/-- the reader on the written group, without any assumption on the unit: everything is
+`loaded f`, the unit is what `decUnit ∘ encUnit` makes of it -/
+theorem fieldLoad_fieldSave_gen (f : TFld) (hf : f.Inv) :
+    fieldLoad (fieldSave f) = .ok { loaded f with unit := decUnit (encUnit f.unit) } := by
   obtain ⟨hm, hnv, hds, hdl, hvs, _, hvd⟩ := (TFld.inv_iff f).mp hf
   unfold fieldLoad fieldSave
-  simp only [meshLoad_meshSave f.mesh hm, bind_ok, decVdims_encVdims, (decUnit_encUnit f.unit).mpr hu]
+  simp only [meshLoad_meshSave f.mesh hm, bind_ok, decVdims_encVdims]
   unfold TFld.init
   have h1 : ¬ ((f.nvdim : Nat) : Int) < 1 := by omega
   have h2 : ((f.nvdim : Nat) : Int).toNat = f.nvdim := by simp
@@ -629,10 +631,251 @@ theorem fieldLoad_fieldSave (f : TFld) (hf : f.Inv) (hu : f.unit ≠ some "None"
   simp only [bind_ok]
   rw [asArray_shaped _ f.mesh.n f.nvdim rfl (by rw [DBuf.upcast_length]; exact hdl)]
   simp only [bind_ok, asValid_shaped f.valid f.mesh.n hvs, vdimsSet_inv f.nvdim f.vdims hvd, DBuf.upcast_idem]
-  have h3 : ¬ (f.nvdim ≠ 1 ∧ f.nvdim = f.mesh.loaded.region.dims.length ∧ f.vdims = none) := by
+  have h3 : ¬ (f.nvdim ≠ 1 ∧ f.nvdim = f.mesh.region.dims.length ∧ f.vdims = none) := by
     rintro ⟨hne, _, hnone⟩
     rw [hnone] at hvd
     exact hne hvd
-  simp only [h3, if_false, hd, loaded, ← hds, ← hvs]
+  simp only [hd]
+  rw [if_neg h3]
+  have e1 : ({ shape := f.mesh.n ++ [f.nvdim], buf := f.data.buf.upcast } : DArr)
+      = { f.data with buf := f.data.buf.upcast } := by rw [← hds]
+  have e2 : ({ shape := f.mesh.n, buf := f.valid.buf } : VArr) = f.valid := by rw [← hvs]
+  rw [e1, e2]
+  rfl
+
+theorem fieldLoad_fieldSave (f : TFld) (hf : f.Inv) (hu : f.unit ≠ some "None") :
+    fieldLoad (fieldSave f) = .ok (loaded f) := by
+  rw [fieldLoad_fieldSave_gen f hf, (decUnit_encUnit f.unit).mpr hu]
+  rfl
+
+/-! ## a field that was read is a fixed point of the round trip -/
+
+theorem joinAll_of_all_int (ks : List NK) (h : ∀ k ∈ ks, k = .int) : joinAll ks = .int := by
+  unfold joinAll
+  rw [if_pos]
+  rw [List.all_eq_true]
+  intro k hk
+  simp [h k hk]
+
+theorem joinAll_of_mem_float (ks : List NK) (h : NK.float ∈ ks) : joinAll ks = .float := by
+  rcases joinAll_cases ks with h1 | h1
+  · have := joinAll_int ks h1 _ h
+    cases this
+  · exact h1
+
+theorem tableKind_loaded (m : TMesh) : tableKind m.loaded = tableKind m := by
+  rcases joinAll_cases (m.region.pmin.kind :: (m.subs.map (fun p => p.2.pmin.kind) ++ m.subs.map (fun p => p.2.pmax.kind))) with h | h
+  · have hk : tableKind m = .int := h
+    rw [hk]
+    apply joinAll_of_all_int
+    intro k hkm
+    simp only [TMesh.loaded, List.map_map, List.mem_cons, List.mem_append, List.mem_map, Function.comp] at hkm
+    rcases hkm with rfl | ⟨p, _, rfl⟩ | ⟨p, _, rfl⟩
+    · exact joinAll_int _ h _ (by simp)
+    · simp [TReg.castCorners, NumArr.cast_kind, hk]
+    · simp [TReg.castCorners, NumArr.cast_kind, hk]
+  · have hk : tableKind m = .float := h
+    rw [hk]
+    apply joinAll_of_mem_float
+    cases hs : m.subs with
+    | nil =>
+      have : tableKind m = joinAll [m.region.pmin.kind] := by simp [tableKind, hs]
+      rw [hk] at this
+      cases hr : m.region.pmin.kind with
+      | int => rw [hr] at this; simp [joinAll] at this
+      | float => simp [TMesh.loaded, hr]
+    | cons p t =>
+      simp only [TMesh.loaded, hs, List.map_cons, List.mem_cons, List.mem_append]
+      right; left; left
+      simp [TReg.castCorners, NumArr.cast_kind, hk]
+
+theorem castCorners_idem (k : NK) (s : TReg) : (s.castCorners k).castCorners k = s.castCorners k := by
+  simp only [TReg.castCorners]
+  rw [NumArr.cast_cast_of_kind k _ (NumArr.cast_kind k _), NumArr.cast_cast_of_kind k _ (NumArr.cast_kind k _)]
+
+theorem mesh_loaded_idem (m : TMesh) : m.loaded.loaded = m.loaded := by
+  have hk := tableKind_loaded m
+  unfold TMesh.loaded at hk ⊢
+  simp only [hk, List.map_map]
+  congr 1
+  apply List.map_congr_left
+  intro p _
+  simp [Function.comp, castCorners_idem]
+
+theorem loaded_idem (f : TFld) : loaded (loaded f) = loaded f := by
+  unfold loaded
+  simp only [mesh_loaded_idem, DBuf.upcast_idem]
+  rfl
+
+theorem mesh_loaded_inv (m : TMesh) (hm : m.Inv) : m.loaded.Inv := by
+  obtain ⟨hr, hn, hpos, hbcl, hbc, hnd, hsub⟩ := (TMesh.inv_iff m).mp hm
+  rw [TMesh.inv_iff]
+  refine ⟨hr, hn, hpos, hbcl, hbc, ?_, ?_⟩
+  · simpa [TMesh.loaded, List.map_map, Function.comp_def] using hnd
+  · intro q hq
+    simp only [TMesh.loaded, List.mem_map] at hq
+    obtain ⟨p, hp, rfl⟩ := hq
+    obtain ⟨hl1, hl2, hk, hd, hu, ht, hlt, hacc⟩ := (subInv_iff _ _ _).mp (hsub p hp)
+    have hloss := tableKind_lossless m p hp
+    have hv1 : (p.2.pmin.cast (tableKind m)).vals = p.2.pmin.vals := NumArr.cast_vals _ _ (by tauto)
+    have hv2 : (p.2.pmax.cast (tableKind m)).vals = p.2.pmax.vals := NumArr.cast_vals _ _ (by tauto)
+    rw [subInv_iff]
+    simp only [TMesh.loaded, TReg.castCorners, NumArr.cast_length, NumArr.cast_kind, hv1, hv2]
+    exact ⟨hl1, hl2, trivial, hd, hu, ht, hlt, hacc⟩
+
+theorem loaded_inv (f : TFld) (hf : f.Inv) : (loaded f).Inv := by
+  obtain ⟨hm, hnv, hds, hdl, hvs, hvl, hvd⟩ := (TFld.inv_iff f).mp hf
+  rw [TFld.inv_iff]
+  refine ⟨mesh_loaded_inv f.mesh hm, hnv, hds, ?_, hvs, hvl, hvd⟩
+  simp only [loaded, DBuf.upcast_length]
+  exact hdl
+
+/-- when does a round trip change nothing at all -/
+theorem loaded_eq_self (f : TFld)
+    (hsub : ∀ p ∈ f.mesh.subs, p.2.pmin.kind = tableKind f.mesh ∧ p.2.pmax.kind = tableKind f.mesh)
+    (hdata : f.data.buf.kind ≠ .int)
+    (hmap : f.vmap = defaultVmap f.nvdim f.mesh.region.dims f.vdims) : loaded f = f := by
+  have h1 : f.mesh.loaded = f.mesh := by
+    unfold TMesh.loaded
+    have : (f.mesh.subs.map fun p => (p.1, p.2.castCorners (tableKind f.mesh))) = f.mesh.subs := by
+      conv_rhs => rw [← List.map_id f.mesh.subs]
+      apply List.map_congr_left
+      intro p hp
+      obtain ⟨h1, h2⟩ := hsub p hp
+      simp only [TReg.castCorners, id]
+      rw [NumArr.cast_cast_of_kind _ _ h1, NumArr.cast_cast_of_kind _ _ h2]
+    rw [this]
+  unfold loaded
+  rw [h1, DBuf.upcast_of_not_int _ hdata, ← hmap]
+
+/-! ## the legacy reader -/
+
+theorem legacyLoad_never_ok (l : Legacy) : ∃ e, legacyLoad l = .error e := by
+  unfold legacyLoad legacyLoadWith
+  cases TReg.init l.p1 l.p2 none none TReg.defaultTol with
+  | error e => exact ⟨e, rfl⟩
+  | ok r =>
+    simp only [bind_ok]
+    cases TMesh.init r l.n "" [] with
+    | error e => exact ⟨e, rfl⟩
+    | ok m =>
+      simp only [bind_ok]
+      cases sidecarLoad m l.sidecar with
+      | error e => exact ⟨e, rfl⟩
+      | ok m' => exact ⟨.type, rfl⟩
+
+namespace NumArr
+
+theorem minimum_length (a b : NumArr) (hl : b.length = a.length) : (minimum a b).length = a.length := by
+  cases a <;> cases b <;> simp_all [minimum, length, vals]
+
+theorem maximum_length (a b : NumArr) (hl : b.length = a.length) : (maximum a b).length = a.length := by
+  cases a <;> cases b <;> simp_all [maximum, length, vals]
+
+/-- `np.minimum` is the element-wise minimum of the numbers, whatever the dtypes -/
+theorem minimum_vals (a b : NumArr) : (minimum a b).vals = List.zipWith min a.vals b.vals := by
+  cases a <;> cases b <;> simp only [minimum, vals]
+  rw [List.zipWith_map_left, List.zipWith_map_right, List.map_zipWith]
+  congr 1
+  funext x y
+  exact Int.cast_min
+
+theorem maximum_vals (a b : NumArr) : (maximum a b).vals = List.zipWith max a.vals b.vals := by
+  cases a <;> cases b <;> simp only [maximum, vals]
+  rw [List.zipWith_map_left, List.zipWith_map_right, List.map_zipWith]
+  congr 1
+  funext x y
+  exact Int.cast_max
+
+end NumArr
+
+/-- the field the documented legacy reader (component count passed as `nvdim`) returns -/
+def legacyField (l : Legacy) : TFld :=
+  { mesh := { region := { pmin := NumArr.minimum l.p1 l.p2, pmax := NumArr.maximum l.p1 l.p2,
+                          dims := Region.defaultDims l.p1.length, units := List.replicate l.p1.length "m",
+                          tol := TReg.defaultTol },
+              n := l.n.map Int.toNat, bc := "", subs := [] },
+    nvdim := l.dim.toNat,
+    data := { shape := l.n.map Int.toNat ++ [l.dim.toNat], buf := l.array.buf.upcast },
+    valid := { shape := l.n.map Int.toNat, buf := List.replicate (natProd (l.n.map Int.toNat)) true },
+    vdims := Fld.defaultVdims l.dim.toNat,
+    vmap := defaultVmap l.dim.toNat (Region.defaultDims l.p1.length) (Fld.defaultVdims l.dim.toNat),
+    unit := none }
+
+theorem legacyLoadDoc_ok (l : Legacy) (h0 : 0 < l.p1.length) (hl : l.p2.length = l.p1.length)
+    (hne : ∀ a, a < l.p1.length → l.p1.vals.getD a 0 ≠ l.p2.vals.getD a 0)
+    (hn : l.n.length = l.p1.length) (hpos : ∀ k ∈ l.n, 0 < k) (hdim : 1 ≤ l.dim)
+    (hs : l.array.shape = l.n.map Int.toNat ++ [l.dim.toNat])
+    (hb : l.array.buf.length = natProd (l.n.map Int.toNat ++ [l.dim.toNat]))
+    (hsc : l.sidecar = none) :
+    legacyLoadDoc l = .ok (legacyField l) := by
+  unfold legacyLoadDoc legacyLoadWith
+  have hinit : TReg.init l.p1 l.p2 none none TReg.defaultTol
+      = .ok { pmin := NumArr.minimum l.p1 l.p2, pmax := NumArr.maximum l.p1 l.p2,
+              dims := Region.defaultDims l.p1.length, units := List.replicate l.p1.length "m",
+              tol := TReg.defaultTol } := by
+    unfold TReg.init
+    have h1 : ¬ l.p1.length ≠ l.p2.length := by omega
+    have h2 : ¬ l.p1.length = 0 := by omega
+    have h3 : allLt l.p1.length (fun a => decide (l.p1.vals.getD a 0 ≠ l.p2.vals.getD a 0)) = true := by
+      rw [allLt_iff]
+      intro a ha
+      simpa using hne a ha
+    simp only [h1, h2, if_false, Region.dimsOk, Region.unitsOk, h3, Bool.not_true, Bool.false_eq_true]
+  rw [hinit]
+  simp only [bind_ok]
+  change (TMesh.init (legacyField l).mesh.region l.n "" []).bind _ = _
+  have hmesh : TMesh.init (legacyField l).mesh.region l.n "" [] = .ok (legacyField l).mesh := by
+    unfold TMesh.init
+    have h1 : ¬ l.n.length ≠ (legacyField l).mesh.region.pmin.length := by
+      show ¬ l.n.length ≠ (NumArr.minimum l.p1 l.p2).length
+      rw [NumArr.minimum_length _ _ hl]; omega
+    have h2 : l.n.any (fun k => decide (k ≤ 0)) = false := by
+      rw [List.any_eq_false]
+      intro k hk
+      have := hpos k hk
+      simp only [decide_eq_true_eq]
+      omega
+    have h3 : "".toLower = "" := by decide +kernel
+    have h4 : ∀ d, Mesh.bcOk d "" = true := by intro d; simp [Mesh.bcOk]
+    simp only [TReg.ndim, h1, h2, h3, h4, if_false, Bool.not_true, Bool.false_eq_true, setSubs, List.all_nil, mapE, bind_ok]
+    rfl
+  rw [hmesh]
+  simp only [bind_ok, hsc, sidecarLoad]
+  unfold TFld.init
+  have h1 : ¬ l.dim < 1 := by omega
+  have hmn : (legacyField l).mesh.n = l.n.map Int.toNat := rfl
+  simp only [h1, if_false, hmn]
+  rw [asArray_shaped l.array _ _ hs hb]
+  simp only [bind_ok]
+  rw [asArray_shaped _ _ _ rfl (by rw [DBuf.upcast_length]; exact hb)]
+  simp only [bind_ok, asValid, vdimsSet, DBuf.upcast_idem]
+  have h5 : ¬ (l.dim.toNat ≠ 1 ∧ l.dim.toNat = (legacyField l).mesh.region.dims.length ∧ Fld.defaultVdims l.dim.toNat = none) := by
+    rintro ⟨hne1, _, hnone⟩
+    exact hne1 ((defaultVdims_none_iff _).mp hnone)
+  rw [if_neg h5]
+  rfl
+
+/-! ## suffix dispatch -/
+
+theorem readFmt_of_writeFmt (s : String) (fmt : Fmt) (h : writeFmt s = .ok fmt) : readFmt s = .ok fmt := by
+  unfold writeFmt at h
+  unfold readFmt
+  split at h
+  · rename_i h1
+    cases h
+    have : s = ".omf" ∨ s = ".ovf" ∨ s = ".ohf" ∨ s = ".oef" := by tauto
+    simp [this]
+  · rename_i h1
+    split at h
+    · rename_i h2
+      cases h
+      subst h2
+      decide
+    · split at h
+      · rename_i h2 h3
+        cases h
+        rcases h3 with rfl | rfl <;> decide
+      · cases h
 
 end DFV.C10
